@@ -93,6 +93,12 @@ def replay_batch(items, timeout=900):
     repository's interpreter; returns the list of observations (same order)."""
     if not items:
         return []
+    if len(items) > 150:
+        # long batches (real sockets, sleeps) are cut into pieces so that none runs into the time limit
+        out = []
+        for i in range(0, len(items), 150):
+            out.extend(replay_batch(items[i:i + 150], timeout))
+        return out
     import tempfile
 
     with tempfile.NamedTemporaryFile("w", suffix=".json", delete=False, dir="/tmp") as fh:
